@@ -67,7 +67,7 @@ def dict_words():
 FEATURES = ['deep_ns', 'global_enc', 'shared_itf', 'empty_itf', 'no_ports', 'inout_mix',
             'out_many_formals', 'nested_enum', 'outer_enum', 'injected', 'same_name_siblings',
             'multi_id_ns', 'reopened_ns', 'system_enc', 'partial_spelling', 'distractors',
-            'many_ports', 'subint_reply', 'bool_reply', 'mc_ready', 'ref_extern', 'prefix_ports', 'mirror_ns', 'many_provides', 'prefix_ns', 'many_requires', 'shadow_ns', 'repeat_ns', 'name_like_ns', 'api_names', 'dict_names']
+            'many_ports', 'subint_reply', 'bool_reply', 'mc_ready', 'ref_extern', 'prefix_ports', 'mirror_ns', 'many_provides', 'prefix_ns', 'many_requires', 'shadow_ns', 'repeat_ns', 'name_like_ns', 'api_names', 'dict_names', 'one_way_itf']
 
 
 def _uniq(draw, pool, taken, n=1):
@@ -219,7 +219,7 @@ def shell_model(draw, force=None, max_ports=6, collide=False):  # pylint: disabl
         decls.append((sc, e))
 
     # ---- interfaces
-    n_itf = draw(st.integers(1, 3))
+    n_itf = draw(st.integers(2 if 'one_way_itf' in feats else 1, 3))
     interfaces = []
     for i in range(n_itf):
         sc = draw(st.sampled_from(scopes))
@@ -352,6 +352,13 @@ def shell_model(draw, force=None, max_ports=6, collide=False):  # pylint: disabl
         ev_taken = set()
         n_in = draw(st.integers(2 if 'mc_ready' in feats else 1, 4))
         n_out = draw(st.integers(1 if ({'mc_ready', 'prefix_ports', 'out_inout'} & feats) else 0, 3))
+        if 'one_way_itf' in feats and not itf.get('mirror'):
+            # one-way interfaces: the first has out-events only (a provides port of it has nothing
+            # inbound), the second in-events only (a requires port of it has nothing inbound)
+            if idx == 0 and 'mc_ready' not in feats:
+                n_in, n_out = 0, max(1, n_out)
+            elif idx == 1:
+                n_out = 0
         for j in range(n_in + n_out):
             is_in = j < n_in
             ev = {'name': _uniq(draw, EVENT_POOL, ev_taken), 'dir': 'in' if is_in else 'out',
@@ -418,11 +425,21 @@ def shell_model(draw, force=None, max_ports=6, collide=False):  # pylint: disabl
                     if len(found) == 1 and found[0]['elem'] is d0['elem']:
                         ref = (d0, list(sp))
                         break
+            if 'one_way_itf' in feats and j in (0, 1, 2, 3) and not repeat:
+                # ports 0/2 take the first (out-only) interface, ports 1/3 the second (in-only) one
+                want = interfaces[j % 2][1]
+                for sp_d in [d for d in flat_decls() if d['elem'] is want]:
+                    for sp in spellings(sp_d['fqn'], enc_scope):
+                        found = lookup(flat_decls(), sp, enc_scope)
+                        if len(found) == 1 and found[0]['elem'] is want:
+                            ref = (sp_d, list(sp))
+                            break
             if 'shared_itf' in feats and j == 1 and shared is not None:
                 ref = shared
             if j == 0:
                 shared = ref
-            direction = 'provides' if j == 0 else draw(st.sampled_from(
+            direction = 'provides' if j == 0 else ['requires', 'provides', 'requires'][j - 1] \
+                if ('one_way_itf' in feats and j <= 3) else draw(st.sampled_from(
                 ['provides', 'provides', 'provides', 'requires'] if 'many_provides' in feats else
                 ['requires'] if 'many_requires' in feats else
                 ['provides', 'requires', 'requires']))
